@@ -1,5 +1,5 @@
 # replay of a bounded stand-in violation (C16): re-run native/c16_states.py
 import sys
-print('bosonic n=2 pure=True cat-complex: parity_expectation([0, 1]) = -0.26607 but sum_n (-1)^n p(n) from reduced_dm = 0.09906')
+print('n=2 pure=True cat-complex: quad_expectation(0,0.8) = [-0.03659, 1.17149] on bosonic, [-0.03659, 2.88812] on fock')
 print('REPLAY-VIOLATION')
 sys.exit(1)
